@@ -328,6 +328,102 @@ func handlerScenario(sp handlerSpec) *explore.Scenario {
 	}}
 }
 
+// Handlers without a result (NewCommandHandler, backend of NoResult): the same ack policy and one reply per
+// handling, carrying the error text.
+func noResultHandlerScenario(ackErrors bool, c int) *explore.Scenario {
+	return &explore.Scenario{Name: fmt.Sprintf("handler-without-result/ackerrors=%v", ackErrors), C: c, DataOnly: c < 0, Body: func() {
+		fails := vs.Choose(2, 0, "handler outcome") == 1
+		jm := cqrs.JSONMarshaler{}
+		cmdMsg, _ := jm.Marshal(&Cmd{ID: "c1"})
+		cmdMsg.UUID = "cmd1"
+		cmdMsg.Metadata.Set(requestreply.OperationIDMetadataKey, "op1")
+		sub := hx.NewScriptSub("commands", map[string][]*message.Message{"commands": {cmdMsg}})
+		sub.Redeliver = 2
+		pub := hx.NewScriptPub("replies")
+		nm := requestreply.BackendPubsubJSONMarshaler[requestreply.NoResult]{}
+		backend, err := requestreply.NewPubSubBackend[requestreply.NoResult](requestreply.PubSubBackendConfig{
+			Publisher:              pub,
+			SubscriberConstructor:  func(requestreply.PubSubBackendSubscribeParams) (message.Subscriber, error) { return nil, nil },
+			GenerateSubscribeTopic: func(requestreply.PubSubBackendSubscribeParams) (string, error) { return "reply", nil },
+			GeneratePublishTopic:   func(requestreply.PubSubBackendPublishParams) (string, error) { return "reply", nil },
+			AckCommandErrors:       ackErrors,
+		}, nm)
+		if err != nil {
+			vs.Fail("setup", "%v", err)
+			return
+		}
+		r, _ := message.NewRouter(message.RouterConfig{}, nil)
+		proc, err := cqrs.NewCommandProcessorWithConfig(r, cqrs.CommandProcessorConfig{
+			GenerateSubscribeTopic: func(cqrs.CommandProcessorGenerateSubscribeTopicParams) (string, error) { return "commands", nil },
+			SubscriberConstructor:  func(cqrs.CommandProcessorSubscriberConstructorParams) (message.Subscriber, error) { return sub, nil },
+			Marshaler:              jm,
+		})
+		if err != nil {
+			vs.Fail("setup", "%v", err)
+			return
+		}
+		handlings := 0
+		err = proc.AddHandlers(requestreply.NewCommandHandler[Cmd]("h", backend, func(ctx context.Context, c *Cmd) error {
+			handlings++
+			if fails {
+				return fmt.Errorf("handling %d failed", handlings)
+			}
+			return nil
+		}))
+		if err != nil {
+			vs.Fail("setup", "%v", err)
+			return
+		}
+		go func() {
+			if err := r.Run(context.Background()); err != nil {
+				vs.Fail("run-result", "%v", err)
+			}
+		}()
+		<-r.Running()
+		vs.Quiesce()
+		cfg := fmt.Sprintf("handler without result, AckCommandErrors=%v, handler fails=%v", ackErrors, fails)
+		ds := sub.Snapshot()
+		wantDeliveries := 1
+		if fails && !ackErrors {
+			wantDeliveries = 3 // nacked and redelivered (the scripted subscriber redelivers twice)
+		}
+		if len(ds) != wantDeliveries || handlings != wantDeliveries {
+			vs.Fail("command-settlement", "%s: %d deliveries and %d handlings, expected %d", cfg, len(ds), handlings, wantDeliveries)
+		}
+		for i, d := range ds {
+			want := "acked"
+			if fails && !ackErrors {
+				want = "nacked"
+			}
+			if got := hx.SettlementOf(d.Msg); got != want {
+				vs.Fail("command-settlement", "%s: delivery %d is %s, expected %s", cfg, i, got, want)
+			}
+		}
+		pcs := pub.Snapshot()
+		if len(pcs) != handlings {
+			vs.Fail("reply-per-invocation", "%s: %d handlings but %d reply publishes", cfg, handlings, len(pcs))
+		}
+		for i, c := range pcs {
+			if len(c.Msgs) != 1 {
+				continue
+			}
+			rep, err := nm.UnmarshalReply(c.Msgs[0])
+			wantErr := ""
+			if fails {
+				wantErr = fmt.Sprintf("handling %d failed", i+1)
+			}
+			gotErr := ""
+			if rep.Error != nil {
+				gotErr = rep.Error.Error()
+			}
+			if err != nil || gotErr != wantErr || c.Msgs[0].Metadata.Get(requestreply.OperationIDMetadataKey) != "op1" {
+				vs.Fail("reply-content", "%s: reply %d carries error %q (unmarshal %v), expected %q", cfg, i, gotErr, err, wantErr)
+			}
+		}
+		vs.Note("%s deliveries=%d", cfg, len(ds))
+	}}
+}
+
 // The reply cannot be prepared or published at the first handling (topic generator, ModifyNotificationMessage or
 // the publisher fails once): the command is not acknowledged without a published reply, whatever
 // AckCommandErrors says (that flag is about handler errors); it is redelivered and then answered.
@@ -684,6 +780,15 @@ func init() {
 				})
 			}
 		}
+	}
+	for _, ack := range []bool{false, true} {
+		ack := ack
+		reg.AddW("C18", noResultHandlerScenario(ack, -1).Name, reg.Quick, 5, func(t reg.Tier) *explore.Scenario {
+			if t == reg.Thorough {
+				return noResultHandlerScenario(ack, 0)
+			}
+			return noResultHandlerScenario(ack, -1)
+		})
 	}
 	for _, ack := range []bool{false, true} {
 		ack := ack
